@@ -77,6 +77,24 @@ def fed_query(rng, single=False):
     return text, ordered, g.features
 
 
+def derived_join(rng):
+    """A nested select (star or explicit columns; with a filter, a row limit after a total order, an offset) joined with a table of
+    another integration, and filters of the outer query on the nested select's columns: they apply to its RESULT."""
+    r = rng
+    t1, t2 = r.choice([('t1', 't2'), ('t2', 't1')])
+    tail = r.choice(['', 'WHERE id > 1', 'ORDER BY id LIMIT 2', 'ORDER BY id DESC LIMIT 3', 'ORDER BY id LIMIT 2 OFFSET 1', 'WHERE a IS NOT NULL ORDER BY id LIMIT 2',
+                     'ORDER BY a DESC, id LIMIT 2'])
+    cols = r.choice(['*', '*', 'id, a', 'id AS id, a AS a'])
+    sub = f'(SELECT {cols} FROM {HOME[t1]}.{t1} {tail})'.replace(' )', ')')
+    frm = f'{sub} AS p {r.choice(["JOIN", "LEFT JOIN", "INNER JOIN"])} {HOME[t2]}.{t2} AS q ON p.id = q.id'
+    if r.random() < 0.3:
+        frm = f'{HOME[t2]}.{t2} AS q {r.choice(["JOIN", "LEFT JOIN"])} {sub} AS p ON p.id = q.id'
+    conds = [r.choice(['p.a > 0', 'p.a = 1', 'p.id > 1', 'p.a IS NOT NULL', 'p.id != 2', '1 < p.id'])]
+    if r.random() < 0.4:
+        conds.append(r.choice(['q.a >= 0', 'q.id < 4', 'q.a IS NOT NULL']))
+    return f'SELECT p.id AS id_p, p.a AS a_p, q.id AS id_q, q.a AS a_q FROM {frm} WHERE ' + ' AND '.join(conds)
+
+
 def const_first(rng):
     """Joins across integrations whose WHERE compares value-first (`2 >= p.a`), with every operator, on either table."""
     r = rng
